@@ -272,10 +272,7 @@ func c04(x *mon.Ctx) {
 	for k, b := range bases {
 		tw := b.Case(world.LColl, "twin", fmt.Sprint(k))
 		tw.Expect = "accept"
-		if out, _ := check(x, k, tw); !out.Accepted {
-			x.Broken("C04 twin rejected: " + out.Err)
-			return
-		}
+		check(x, k, tw) // a rejected twin is reported by the must-accept expectation; the soundness workload still runs
 	}
 	abs := allAbsLevels()
 	mods1 := allAbsModules(false)
